@@ -420,12 +420,14 @@ Record gcase := {
   g_served : bool;     (* the well-behaved client was served *)
   g_before : Z;        (* gauge once every client of the scenario has been dealt with, before shutdown *)
   g_open_before : Z;   (* client sockets of the scenario the proxy had not closed at that moment *)
-  g_after : Z          (* gauge after Run returned *)
+  g_after : Z;         (* gauge after Run returned (direct-* scenarios: martian's counter at the end) *)
+  g_sd : N;            (* direct-* scenarios: 0 n/a, 1 Shutdown returned nil, 2 exactly ctx.Err(), 3 anything else *)
+  g_sd_want : N        (* what the property demands: nil once drained, otherwise the context's error *)
 }.
 (* "the proxy's count of open connections always returns to zero": it equals the connections still
    open before shutdown and is zero afterwards *)
 Definition gcase_prop_ok (g : gcase) : bool :=
-  g_served g && (g_before g =? g_open_before g) && (g_after g =? 0).
+  g_served g && (g_before g =? g_open_before g) && (g_after g =? 0) && (g_sd g =? g_sd_want g)%N.
 
 Definition mcase_prop_ok (m : mcase) : bool := (m_upstream_after m =? 0) && negb (m_got_response m) && m_eof m.
 
